@@ -200,3 +200,38 @@ def _(c):
     c.on_path(_mark_level1)
     for name, expr in GTF_SEQ:
         c.yields_seq(expr, name=name)
+
+
+# ---- generate_tiles: the unfiltered enumeration IS the filtered one with a filter that accepts every tile ---------
+def gt_setup(interp, path):
+    case = interp._case
+    return {"depth": z3.Int(fresh_name("depth")), "bottom_only": case["bottom_only"], "coordsys": _tg._cs(case)}
+
+
+def gt_trace(m, path, fr, env, outcome, value, exc):
+    name = m.oblname("forwards_to_the_filtered_enumeration_with_an_all_accepting_filter")
+    if outcome != "return":
+        return
+    calls = [e for e in path.events if e[0] == "call" and e[1].endswith("toast.generate_tiles_filtered")]
+    ok = len(calls) == 1
+    g = z3.BoolVal(False)
+    if ok:
+        a = calls[0][2]
+        from pyvc.values import EnumVal
+        case = m._case
+        ok = (a.get("bottom_only") is case["bottom_only"] and isinstance(a.get("coordsys"), EnumVal) and a["coordsys"].name == case["coordsys"])
+        pos = NTuple("Pos", ("n", "x", "y"), [z3.Int(fresh_name("q." + f)) for f in "nxy"])
+        acc = accepts(m, a.get("filter"), pos)
+        acc = z3.BoolVal(acc) if isinstance(acc, bool) else acc
+        from pyvc.interp import GenVal
+        ok = ok and isinstance(value, GenVal)
+        g = z3.And(z3.BoolVal(bool(ok)), acc, z3num(a.get("depth")) == z3num(fr.entry_env.lookup("depth")))
+    path.oblige(name, g, kind="trace", assume_after=False)
+
+
+@contract("toasty.toast.generate_tiles")
+def _(c):
+    c.inline()       # callers execute it in place (it only forwards); it is verified on its own here
+    c.cases(*[{"bottom_only": b, "coordsys": cs} for b in (False, True) for cs in ("ASTRONOMICAL", "PLANETARY")])
+    c.setup(gt_setup)
+    c.on_path(gt_trace)
